@@ -95,3 +95,9 @@ claim("C04",
   "Decides the structural preconditions of decode(encode(x)) = x over the whole schema: both directions see the same constraints (one parser, one tag key, equal top-level strings), the open-type dispatch is unambiguous (unique reference values equal to IE ids / procedure codes, earlier reference field, Present = position), the schema is acyclic, mirrored primitives agree in every cloned guard and loop, the length decoder inverts the length encoder form by form, and SEQUENCE OF counts are offset by the lower bound on exactly the same branches.",
   "Level 'other'. Not decided: value equality of a round trip for every value; acceptance of other encoders' output beyond these facts.",
   "DESIGN.md §5 C04")
+
+claim("C14",
+  "obligation list over every index/slice/division/type-assertion/allocation site of the decoder functions (SSA), each discharged by a dominating-guard prover (i < len, hi <= len with lo a summand, HasPrefix-prefix slices) or by a named, argued exception tied to the exact expression; cursor-update analysis with linear forms of guard and update; checked-read dominance; fragment-loop progress; allocation-size provenance; acyclic-schema recursion bound; explicit-panic scan; never-initialised-global analysis",
+  "Decides for every input at once that each place where the decoder could panic is either provably in range or argued, that the cursor only moves by amounts that were compared with the input length, that bit reads cannot skip the remaining-bits check, that element counts sizing allocations are constrained values or single octets, that recursion follows an acyclic schema, and that nothing in the decoder terminates the process - so a changed guard, a new unchecked fast path or an unbounded count shows up as an undischarged obligation naming the site.",
+  "Level 'other'. 19 sites rest on hand arguments (recorded per site in the evidence). Not decided: panics inside reflect for other reasons, actual time/memory figures.",
+  "DESIGN.md §5 C14")
